@@ -722,7 +722,9 @@ func (ex *Exec) merge(states []*State, conds []Term) *State {
 			}
 		}
 	}
-	sort.Slice(allocs, func(i, j int) bool { return allocs[i].Pos() < allocs[j].Pos() || allocs[i].Pos() == allocs[j].Pos() && allocs[i].Name() < allocs[j].Name() })
+	sort.Slice(allocs, func(i, j int) bool {
+		return allocs[i].Pos() < allocs[j].Pos() || allocs[i].Pos() == allocs[j].Pos() && allocs[i].Name() < allocs[j].Name()
+	})
 	for _, a := range allocs {
 		var vs []Val
 		var cs []Term
